@@ -397,6 +397,37 @@ fn check_tape(tape: &[u8], gates: &Gates, stats: &mut Stats, counting: bool, cli
             }
         }
     }
+    // the same project object over time: the set is first analysed with a harmless text in the faulty
+    // file's place (a project that lives in an editor is analysed again and again), then that document
+    // is changed to the faulty text - the set as it stands now contains the faulty file, so it fails
+    if same_name.is_none() {
+        let arranged = files.clone();
+        let r = crate::panicx::catch(|| {
+            let mut p = FileBackedProject::new();
+            for (i, t) in arranged.iter().enumerate() {
+                let text = if i == fidx { "(* nothing yet *)\n".to_string() } else { t.clone() };
+                p.change_text_document(&FileId::from_string(&crate::drive::set_file_name(i)), text);
+            }
+            let first = p.semantic().is_ok();
+            p.change_text_document(&FileId::from_string(&crate::drive::set_file_name(fidx)), arranged[fidx].clone());
+            let second = p.semantic().is_ok();
+            // (and a third time, unchanged: the answer does not wear off)
+            let third = p.semantic().is_ok();
+            (first, second, third)
+        })
+        .map_err(|(loc, msg)| Failure::new("set-history", "panic", format!("Project::semantic: {} {}", loc, msg), json!({"files": arranged})))?;
+        if counting {
+            stats.class("set.history.faulty-text-arrives-after-an-analysis");
+        }
+        if r.1 || r.2 {
+            return Err(Failure::new(
+                "set-history",
+                "error-masked",
+                format!("a project analysed once (ok={}) whose file #{} is then changed to the faulty text ({}) checks OK (second analysis ok={}, third ok={})", r.0, fidx, fclass, r.1, r.2),
+                json!({"files": arranged, "faulty_index": fidx, "kind": fclass}),
+            ));
+        }
+    }
     // the binary: files and directory
     if counting && cli_budget.fetch_sub(1, std::sync::atomic::Ordering::Relaxed) > 0 {
         let dir = Scratch::new("c03");
